@@ -24,6 +24,7 @@ package main
 // ';'), or "hang" / "panic".  A token is style*4096 + alphabet id.
 
 import (
+	"encoding/hex"
 	"fmt"
 	"os"
 	"runtime"
@@ -877,6 +878,34 @@ func (st *state) emitDrawHard(s string, w, h int, split int, styles []int) {
 	st.r.Count("draw-hard")
 }
 
+// emitDrawTextHard: Text.Draw with Softwrap = false (op DT, round 3): the lines are bufio.Scanner's, the
+// ellipsis and the Fill are in Text.Style.  Encoded like the rich ops (one segment in style st).
+func (st *state) emitDrawTextHard(s string, w, h int, style int) {
+	if hangs >= maxHangs {
+		return
+	}
+	rc := buildRich([]string{s}, []int{style})
+	st.r.Emit(rc.op("DT", w, h), rc.runDrawTextHard(s, w, h, style))
+	st.r.Count("draw-text-hard")
+}
+
+func (rc *richCase) runDrawTextHard(s string, w, h, style int) string {
+	var out string
+	res := guarded(func() {
+		t := &text.Text{Content: s, Style: styleOf(style), Softwrap: false}
+		sf, err := t.Draw(drawCtx(w, h))
+		if err != nil {
+			out = "error"
+			return
+		}
+		out = encSurface(sf, rc.a.ids, -1)
+	})
+	if res != "" {
+		return res
+	}
+	return out
+}
+
 // nLines: how many lines the rich soft-wrap scanner returns at this width (for choosing Max.Height).
 func nLines(s string, w int) int {
 	rc := buildRich([]string{s}, []int{0})
@@ -1016,6 +1045,32 @@ func (st *state) rebuild(op []string) (string, string, bool) {
 			res = append(res, pc.runScan(w))
 		}
 		return pc.op("P", atoi(op[1]), atoi(op[2])), strings.Join(res, "|"), true
+	case "DT":
+		// the text is rebuilt from the alphabet and the ids; the style is that of the first cell
+		if len(op) != 9 {
+			return "", "", false
+		}
+		names := strings.Split(op[3], ",")
+		var sb strings.Builder
+		if op[7] != "" && op[7] != "-" {
+			for _, f := range strings.Split(op[7], ",") {
+				i := atoi(f)
+				if i < 0 || i >= len(names) {
+					return "", "", false
+				}
+				b, err := hex.DecodeString(names[i])
+				if err != nil {
+					return "", "", false
+				}
+				sb.Write(b)
+			}
+		}
+		style := 0
+		if op[8] != "" && op[8] != "-" {
+			style = atoi(strings.Split(op[8], ",")[0])
+		}
+		rc := buildRich([]string{sb.String()}, []int{style})
+		return rc.op("DT", atoi(op[1]), atoi(op[2])), rc.runDrawTextHard(sb.String(), atoi(op[1]), atoi(op[2]), style), true
 	case "R", "DR", "DH":
 		if len(op) != 9 {
 			return "", "", false
@@ -1121,6 +1176,12 @@ func run(r *hx.Run) error {
 				for _, h := range heights(nl, 1, 2) {
 					st.emitDrawHard(s, w, h, split, []int{1, 2})
 				}
+				st.emitDrawTextHard(s, w, nl, 1+w%2)
+				if len(prefix) <= 2 {
+					if h := nl - 1 + 2*(w%2); h >= 0 {
+						st.emitDrawTextHard(s, w, h, 0)
+					}
+				}
 			}
 		}
 		if n == 0 {
@@ -1147,6 +1208,7 @@ func run(r *hx.Run) error {
 			st.emitDraw(s, rng.Range(1, 6), rng.Range(0, 12), 0, []int{1})
 			st.emitHard(s)
 			st.emitDrawHard(s, rng.Range(1, 6), gen.Pick(rng, []int{0, 1, 2, 3, 12, 65535}), len(mk(ix[:rng.Intn(n+1)])), []int{rng.Intn(3), rng.Intn(3)})
+			st.emitDrawTextHard(s, rng.Range(1, 6), gen.Pick(rng, []int{0, 1, 2, 3, 12, 65535}), rng.Intn(3))
 		}
 	}
 	r.Note("t-sample", time.Since(t0).String())
